@@ -372,8 +372,13 @@ def run_schema_extends(ctx, i, dirpath):
             bm["keytype"] = "identifier" if top_kt != "identifier" \
                 else "basic-key"
             # its own children must still be valid under that key type
-            if any(family.norm_key(bm["keytype"], c["name"]) is None
-                   for c in bm["children"] if c["name"] not in ("*", "+")):
+            def _bad(c):
+                if c["name"] not in ("*", "+"):
+                    return family.norm_key(bm["keytype"], c["name"]) is None
+                return any(family.norm_key(bm["keytype"], d[0]) is None
+                           for d in c.get("defaults") or []
+                           if isinstance(d, list))
+            if any(_bad(c) for c in bm["children"]):
                 mode = "inherit"
                 bm["keytype"] = top_kt
         fn = "bases/b%d.xml" % bi if bi % 2 else "b%d.xml" % bi
